@@ -31,7 +31,10 @@ SELFTEST = [
     {"mutation": "decode: swap tags 3 and 4 (Close listener/dialer)", "caught_by": "tags/decode(encode(Close, ...)) is the same frame"},
     {"mutation": "decode: None arm of HasHeader restores CodecDecodeState::Begin", "caught_by": "fsm/HasHeader: Ok(None) restores the same state"},
     {"mutation": "decode: HasHeaderAndLen Ok(None) path does not restore the state", "caught_by": "fsm/HasHeaderAndLen: state restored before every Ok(None)"},
-    {"mutation": "decode: `if src.len() < len` -> `<=`-less variant `if src.len() + 1 < len`", "caught_by": "nopanic/split_to only when len bytes are buffered"},
+    {"mutation": "decode: `if src.len() < len` -> `if src.len() + 1 < len`", "caught_by": "nopanic/split_to only when len bytes are buffered"},
+    {"mutation": "decode: `self.decoder_state = Begin` before Ok(Some(out)) removed", "caught_by": "fsm/HasHeaderAndLen: decoder reset to Begin before every Ok(Some(frame))"},
+    {"mutation": "decode: size check deleted", "caught_by": "size-limit/reserve bounded by MAX_FRAME_SIZE, split_to bounded, floor"},
+    {"mutation": "(negative) size check moved to the top of the HasHeaderAndLen arm, before the need-more-bytes test", "caught_by": "silent, as it should be"},
     {"mutation": "encode: Reset/Dialer tag 6 -> 5", "caught_by": "tags/encoder tags are distinct"},
     {"mutation": "into_local: role: self.role (not flipped)", "caught_by": "tags/into_local mirrors the role"},
     {"mutation": "encode: length prefix written from header_bytes.len()", "caught_by": "encode/length prefix is the payload length"},
